@@ -1,3 +1,4 @@
+import Sparrow.Proofs.ShapeLemmas
 import Sparrow.Proofs.LifeLemmas
 import Sparrow.Generated.Lifecycle
 import Sparrow.Generated.Constants
@@ -90,3 +91,26 @@ theorem params_describe_etc (s : St) (h : ParamsDescribeEtc s) (ops : List Op) :
   Sparrow.Life.params_describe_etc s h ops
 
 end Sparrow.Props.C15
+
+namespace Sparrow.Props.C15.Shape
+open Sparrow.Shape Sparrow Sparrow.Generated
+
+/-- Consequently a history that ends with a save/restore is refused exactly in those situations. -/
+theorem restore_refused_iff (W nv P : Nat) (ids : List Int) (hg : GeomOK W P ids)
+    (ops : List Op) (s : St) (h : run (fresh W nv P ids) ops = some s) :
+    run (fresh W nv P ids) (ops ++ [Op.saveRestore]) = none ↔ ¬ (DirsComplete s ∧ Fresh s) :=
+  Sparrow.Shape.restore_refused_iff W nv P ids hg ops s h
+
+/-- D13 witness: two walls, material on wall 0 only — reachable, and refused on restore. -/
+theorem partial_walls_rejected :
+    ∃ s, run (fresh 2 4 2 [0, 1]) [Op.setBrdf [0] 1 1 ⟨1, 1⟩] = some s ∧ accepted s = false :=
+  Sparrow.Shape.partial_walls_rejected 
+
+/-- D15 witness: bake, then an attenuation with three bands — reachable, and refused on restore
+    until the geometry is baked again. -/
+theorem stale_factors_rejected :
+    (∃ s, run (fresh 2 4 2 [0, 1]) [Op.bake 1, Op.setAtt ⟨3, 1⟩] = some s ∧ accepted s = false) ∧
+    (∃ s, run (fresh 2 4 2 [0, 1]) [Op.bake 1, Op.setAtt ⟨3, 1⟩, Op.bake 1] = some s ∧ accepted s = true) :=
+  Sparrow.Shape.stale_factors_rejected 
+
+end Sparrow.Props.C15.Shape
